@@ -134,24 +134,35 @@ def check(case):
     # (e) far field (3D, connected networks): along lattice directions at the largest resolved separation
     far = None
     if crys.dim == 3 and GF.Ndiff == 1:
-        D = np.asarray(GF.D)
-        Dinv = np.linalg.inv(D)
-        i = j = case["ends"][0][0]
-        pole = rho[i] * crys.volume / (4 * np.pi * np.sqrt(np.linalg.det(D)))
         jl = max(np.linalg.norm(dx) for (_, _, dx, _) in jumps)
-        for a in range(3):
-            R = np.zeros(3, dtype=int)
-            R[a] = GF.kptgrid[a] // 4
-            x = crys.lattice @ R
-            if np.linalg.norm(x) < 3 * jl:
-                continue
-            xD = np.sqrt(x @ Dinv @ x)
-            ratio = -GF(i, j, x) * xD / pole
-            dev = abs(ratio - 1.) * (np.linalg.norm(x) / jl) ** 2
-            far = dev if far is None else max(far, dev)
+        i0 = case["ends"][0][0]
+
+        def farfield(G_, grid):
+            D = np.asarray(G_.D)
+            Dinv = np.linalg.inv(D)
+            pole = rho[i0] * crys.volume / (4 * np.pi * np.sqrt(np.linalg.det(D)))
+            worst = None
+            for a in range(3):
+                R = np.zeros(3, dtype=int)
+                R[a] = grid[a] // 4
+                x = crys.lattice @ R
+                if np.linalg.norm(x) < 3 * jl:
+                    continue
+                xD = np.sqrt(x @ Dinv @ x)
+                dev = abs(-G_(i0, i0, x) * xD / pole - 1.) * (np.linalg.norm(x) / jl) ** 2
+                worst = dev if worst is None else max(worst, dev)
+            return worst
+        grid4 = [int(q) for q in GF.kptgrid]
+        far = farfield(GF, grid4)
         if far is not None:
             classes.append("farfield")
-            require(far <= 6.0, lambda: "far field: g*|x|_D deviates from the continuum pole by %.3f * (jump length/|x|)^2" % far)
+            if far > 6.0:
+                # the same separations with a denser mesh: mesh-limited deviations shrink, a wrong pole amplitude does not
+                r8_, GF8, _, _ = residuals(case, 8)
+                far8 = farfield(GF8, grid4)
+                require(far8 <= max(6.0, 0.5 * far), lambda: "far field: g*|x|_D deviates from the continuum pole by %.3f * (jump length/|x|)^2 (Nmax=8: %.3f)" % (far, far8))
+                classes.append("farfield_integration_limited")
+                residuals(case, 4)
     # (d) uniform scaling of all rates
     a = case["alpha"]
     vals4 = list(r4["vals"])
